@@ -41,6 +41,15 @@ def gen_base(rng, tier, index):
                 "ready_first": True, "ready_during": True,
                 "calls": [{"ordered": True, "n": 4, "chunk": 1, "form": "list", "ready_after": True},
                           {"ordered": False, "n": 3, "chunk": 2, "form": "gen"}]}
+    if index in (9, 10) or (tier == "thorough" and index % 40 in (9, 10)):
+        # more workers than slots of the work queue, left at once: the stop orders do not fit into the queue. Base 9: two of
+        # the workers die in begin() and never read theirs; base 10: the workers are busy in a slow begin() for longer than
+        # the pool's internal put timeout
+        b9 = index % 40 == 9
+        return {"pool": "functor", "workers": 3, "wq": 0.5, "rq": None, "quota": None, "end_delay": 0,
+                "begin_delay": 0 if b9 else (1.6 if tier == "quick" else rng.choice([1.6, 2.7])),
+                "faults": {"0": ["begin"], "1": ["begin"]} if b9 else None, "side_thread": b9, "ready_first": False,
+                "calls": [] if index % 80 < 40 else [{"ordered": True, "n": 1, "chunk": 1, "form": "list"}]}
     case = c03.gen_base(rng, tier, index)
     case.pop("join_timeout", None)       # the property speaks about pools without join_timeout
     case.pop("no_sweep", None)
